@@ -149,6 +149,8 @@ def plan(ctx, geos):
             else:
                 kills = [(K("settled", 0, GATE_DELAY), RWI), (K("w-half", 0, GATE_DELAY), RWI), (K("bit", 0), NEVER), (K("persisted", 0), RWI),
                          (K("complete", 0, GATE_DELAY), RWI)]
+                if pre == "good":       # nothing is left to download: only the start paths
+                    kills = [(K("settled", 0, GATE_DELAY), RWI), (K("complete", 0, GATE_DELAY), RWI)]
                 if pre != "none":
                     kills.append((K("r-enter", 0), RWI))
             for kill, rwi in kills:
